@@ -47,7 +47,8 @@ def cq_lentry(f):
 
 
 def cq_kind(k):
-    return {"dir": "(Some KDir)", "file": "(Some KFile)", "special": "(Some KSpecial)", None: "None"}[k]
+    return {"dir": "(Some KDir)", "file": "(Some KFile)", "special": "(Some KSpecial)", "fifo": "(Some KFifo)",
+            None: "None"}[k]
 
 
 def cq_child(c):
@@ -68,12 +69,14 @@ def cq_alts(patt):
     return gen_umn.coq_alts(gen_umn.compile_ignore(patt))
 
 
-EXC_CODES = {"FileNotFound": 1, "IOErr": 2, "IndexError": 3, "ValueError": 4, "TypeError": 5}
+EXC_CODES = {"FileNotFound": 1, "IOErr": 2, "IndexError": 3, "ValueError": 4, "TypeError": 5, "other:Timeout": 6}
 
 
 def cq_outcome(r):
     if "exc" in r:
-        return "(%d, [])" % EXC_CODES.get(r["exc"], 99)
+        return "(%d, @nil entry)" % EXC_CODES.get(r["exc"], 99)
+    if not r["entries"]:
+        return "(0, @nil entry)"
     return "(0, %s)" % coq_list(cq_entry(e) for e in r["entries"])
 
 
